@@ -59,7 +59,7 @@ def check(ctx, case):
 		thr_s, ds2 = T.scale_all(case['thr'], [float(x) for x in dists])
 		ftok = T.forest_token(case['parent'], thr_s, case['report'])
 		for m, i in list(zip(item.closest_genomes, lst))[:5]:
-			mt = None if m.matched_taxon is None else tix[id(m.matched_taxon)]
+			mt = None if m.matched_taxon is None else tix.get(id(m.matched_taxon), 999999)   # 999999: an object of another taxonomy
 			lines.append(f'c03.match {ftok} {case["gtax"][i]} {ds2[i]} {opt(mt)}')
 	if case.get('export'):
 		# the exported CSV and JSON must name the same closest genome, and the JSON list must be the in-memory list
